@@ -1,146 +1,120 @@
-"""C11 demo 3: Client.write accepts data while the endpoint is not connected.
+"""C11 / File: a write event handled after File has found its poller but before its
+_open has been handled (File._fd is still None) breaks the stream.
 
-Part A: a write event reaches a TCPClient that is not connected.  send() fails with
-EPIPE (ENOTCONN on some systems); Client._close() returns early because `_connected`
-is false, so neither `error` nor `disconnected` is fired: the fatal send error and the
-loss of the data are completely silent.
-
-Part B: the peer closes connection 1 (client fires `disconnected`, socket is closed).
-A write event that arrives after that (the normal race between an application and a
-peer hang-up) is appended to the buffer of the closed endpoint, no event is fired, and
-the bytes are handed to the OS later - on the NEXT connection, in front of its data.
+Case A  register a File and fire write + close right away (what Process.start()
+        followed by Process.write() does for the stdin File): the payload stays in
+        the buffer for ever, the close never takes effect, no error is reported.
+Case B  write to the stdin of a Process from the handler of its 'started' event:
+        the payload is dropped AND the stdin File is closed although nobody asked
+        for it (the bogus writer "None" makes Select fire _disconnect(None), which
+        File takes for its own descriptor), so `cat` sees EOF and echoes nothing.
 """
-import socket
+import os
+import shutil
 import sys
 import time
 
-from circuits import Component, Manager, handler
-from circuits.net.events import connect, write
-from circuits.net.sockets import TCPClient
+from circuits import Component, Event, handler
+from circuits.io import File, Process
+from circuits.io.events import close, write
 
 
-class Recorder(Component):
-    channel = 'client'
+class go(Event):
+    """go Event"""
 
+
+class AppA(Component):
     def init(self):
         self.seen = []
 
-    @handler('error')
-    def _on_error(self, *args):
-        self.seen.append(('error', args))
+    @handler('go')
+    def _on_go(self, fd):
+        File(os.fdopen(fd, 'wb', 0)).register(self)
+        self.fire(write(b'payload'), 'file')
+        self.fire(close(), 'file')
 
-    @handler('disconnected')
-    def _on_disconnected(self, *args):
-        self.seen.append(('disconnected',))
+    @handler('opened', 'closed', 'error', channel='file')
+    def _on_any(self, event, *args):
+        self.seen.append(event.name)
 
-    @handler('connected')
-    def _on_connected(self, *args):
-        self.seen.append(('connected',))
-
-
-def setup():
-    m = Manager()
-    c = TCPClient().register(m)
-    rec = Recorder().register(m)
-    m._running = True
-    for _ in range(5):
-        m.tick(0.01)
-    return m, c, rec
+    @handler('exception', channel='*')
+    def _on_exception(self, *args, **kwargs):
+        self.seen.append('exception')
 
 
-def spin(m, cond, seconds=5):
-    t0 = time.time()
-    while not cond() and time.time() - t0 < seconds:
-        m.tick(0.01)
-    return cond()
-
-
-def part_a():
-    m, c, rec = setup()
-    sent = []
-    real_send = c._sock.send
-
-    class Spy:  # only observes the outcome of send() on the real socket
-        def __getattr__(self, name):
-            return getattr(c_sock, name)
-
-        def send(self, data):
-            try:
-                n = real_send(data)
-                sent.append(('accepted', n))
-                return n
-            except OSError as exc:
-                sent.append(('raised', exc.errno))
-                raise
-
-    c_sock = c._sock
-    c._sock = Spy()
-    m.fire(write(b'written before connect'), 'client')
-    for _ in range(30):
-        m.tick(0.01)
-    print('A: send() outcomes: %s   events: %s   buffer: %s' % (sent, rec.seen, list(c._buffer)))
-    bad = any(kind == 'raised' for kind, _ in sent) and not rec.seen
-    if bad:
-        print('A: VIOLATION: send failed fatally, data dropped, no error/disconnected event')
-    return bad
-
-
-def part_b():
-    ls = socket.socket()
-    ls.bind(('127.0.0.1', 0))
-    ls.listen(5)
-    ls.settimeout(5)
-    port = ls.getsockname()[1]
-    m, c, rec = setup()
-
-    m.fire(connect('127.0.0.1', port), 'client')
-    spin(m, lambda: ('connected',) in rec.seen)
-    conn1, _ = ls.accept()
-    conn1.settimeout(2)
-    m.fire(write(b'first'), 'client')
-    spin(m, lambda: not c._buffer, 2)
-    for _ in range(5):
-        m.tick(0.01)
-    print('B: connection 1 received %r' % conn1.recv(100))
-    conn1.close()
-    spin(m, lambda: ('disconnected',) in rec.seen)
-    print('B: events so far: %s' % rec.seen)
-
-    n = len(rec.seen)
-    m.fire(write(b'LATE'), 'client')  # arrives after the endpoint closed
-    for _ in range(20):
-        m.tick(0.01)
-    print('B: after a write to the closed endpoint: new events %s, buffer %s' % (rec.seen[n:], list(c._buffer)))
-
-    m.fire(connect('127.0.0.1', port), 'client')
-    spin(m, lambda: rec.seen.count(('connected',)) == 2)
-    conn2, _ = ls.accept()
-    conn2.settimeout(1)
-    m.fire(write(b'hello'), 'client')
-    for _ in range(30):
-        m.tick(0.01)
-    got = b''
+def case_a():
+    r, w = os.pipe()
+    os.set_blocking(r, False)
+    app = AppA()
+    app._running = True
+    for _ in range(3):
+        app.tick(0.001)
+    app.fire(go(w))
+    for _ in range(200):
+        app.tick(0.001)
     try:
-        while len(got) < 9:
-            d = conn2.recv(100)
-            if not d:
-                break
-            got += d
-    except socket.timeout:
+        got = os.read(r, 65536)
+    except BlockingIOError:
+        got = b''
+    ok = (got == b'payload' and 'closed' in app.seen) or ({'error', 'exception'} & set(app.seen))
+    print('case A: wrote b"payload" + close right after registering the File: pipe received %r, events %s -> %s'
+          % (got, app.seen, 'ok' if ok else 'payload never written, close never effective, nothing reported'))
+    return bool(ok)
+
+
+class AppB(Component):
+    def init(self):
+        self.seen = []
+
+    @handler('started', channel='process')
+    def _on_started(self, proc):
+        proc.write(b'hello\n')
+
+    @handler('closed', 'error', channel='*')
+    def _on_any(self, event, *args):
+        self.seen.append((event.name, event.channels[0].split('.')[-1]))
+
+    @handler('exception', channel='*')
+    def _on_exception(self, *args, **kwargs):
+        self.seen.append(('exception', ''))
+
+
+def case_b():
+    if not shutil.which('cat'):
+        print('case B: skipped (no cat)')
+        return True
+    app = AppB()
+    proc = Process(['cat']).register(app)
+    app._running = True
+    for _ in range(5):
+        app.tick(0.001)
+    proc.start()
+    deadline = time.time() + 3
+    while time.time() < deadline and proc.stdout.getvalue() != b'hello\n':
+        app.tick(0.01)
+    out = proc.stdout.getvalue()
+    stdin_closed = proc._stdin.closed
+    reported = [e for e in app.seen if e[0] in ('error', 'exception')]
+    ok = out == b'hello\n' or (reported and not stdin_closed)
+    print('case B: wrote b"hello\\n" to cat from the "started" handler: cat echoed %r, stdin File closed: %s, '
+          'events %s -> %s' % (out, stdin_closed, app.seen, 'ok' if ok else 'payload dropped, stdin closed unasked'))
+    try:
+        proc.kill()
+    except Exception:
         pass
-    print('B: connection 2 was sent only b\'hello\' and received %r' % got)
-    bad = got != b'hello'
-    if bad:
-        print('B: VIOLATION: bytes written after the endpoint closed were handed to the OS '
-              '(on the next connection), without any error/disconnected event')
-    return bad
+    return bool(ok)
+
+
+def main():
+    a = case_a()
+    b = case_b()
+    if a and b:
+        print('no violation')
+        return 0
+    print('VIOLATION: data passed to a write event of a File that is registered but not yet open is lost '
+          'silently (and a requested close never happens / an unrequested one does)')
+    return 1
 
 
 if __name__ == '__main__':
-    a = part_a()
-    b = part_b()
-    if a or b:
-        print('VIOLATION')
-        sys.exit(1)
-    print('ok')
-    sys.exit(0)
+    sys.exit(main())
